@@ -9,7 +9,7 @@ import (
 // cache call sequences and clock advances against the TTL reference model ----
 
 func cacheAlphabet(level int, withCallbacks bool) []CIn {
-	ttls := []time.Duration{durNoExp, durDef, 0, 1, 2}
+	ttls := []time.Duration{durNoExp, durDef, 0, -1, 1, 2}
 	vals := []int{1, 2}
 	if level >= 1 {
 		ttls = []time.Duration{durNoExp, durDef, 0, -1, 1, 2, 5}
